@@ -6,6 +6,7 @@
 #include "simulator/packet.hpp"
 #include <map>
 #include <memory>
+#include <array>
 #include <fstream>
 #include <unistd.h>
 
@@ -499,6 +500,21 @@ struct runner
 			std::size_t n = socks.at(arg(1))->read_some(mb, ec);
 			tr.line("L t=%lld 4 6 %lld%s", now_ns(), arg(1), read_args(ec_code(ec), ec ? 0 : n, *bufs).c_str());
 		}
+		else if (c == "tcp_write_all")
+		{
+			long long s = arg(1), seed = arg(2), total = arg(3), chunk = arg(4), h = arg(5);
+			auto data = std::make_shared<std::vector<std::uint8_t>>();
+			pat_fill(*data, seed, total);
+			write_all(s, data, 0, std::size_t(chunk), h);
+		}
+		else if (c == "tcp_read_all")
+		{
+			long long s = arg(1), bs = arg(2), h = arg(3);
+			auto buf = std::make_shared<std::vector<std::uint8_t>>(std::size_t(bs));
+			auto st = std::make_shared<std::array<unsigned long long, 3>>();
+			(*st)[0] = 0; (*st)[1] = 1; (*st)[2] = 0;
+			read_all(s, buf, st, h);
+		}
 		else if (c == "tcp_wait")
 		{
 			long long h = arg(2);
@@ -550,12 +566,9 @@ struct runner
 			long long a = arg(1), dst = arg(2), h = arg(3);
 			obj_node[dst] = obj_node[a];
 			accs.at(a)->async_accept([this, h, dst](boost::system::error_code const& ec, tcps::socket peer) {
-				if (!ec)
-				{
-					socks[dst].reset();
-					socks[dst].reset(new tcps::socket(std::move(peer)));
-					socks[dst]->non_blocking(true);
-				}
+				socks[dst].reset();
+				socks[dst].reset(new tcps::socket(std::move(peer)));
+				socks[dst]->non_blocking(true);
 				run_handler(h, " " + std::to_string(ec_code(ec)) + " " + std::to_string(ec ? -1 : dst));
 			});
 		}
@@ -585,6 +598,39 @@ struct runner
 			sim->log_pcap(path);
 		}
 		else tr.line("BADOP %s", c.c_str());
+	}
+
+	void write_all(long long s, std::shared_ptr<std::vector<std::uint8_t>> data, std::size_t off, std::size_t chunk, long long h)
+	{
+		std::size_t const n = std::min(chunk, data->size() - off);
+		socks.at(s)->async_write_some(asio::const_buffer(data->data() + off, n)
+			, [this, s, data, off, chunk, h](boost::system::error_code const& ec, std::size_t w) {
+				if (ec) { run_handler(h, " " + std::to_string(ec_code(ec)) + " " + std::to_string(off)); return; }
+				std::size_t const done = off + w;
+				if (done >= data->size()) { run_handler(h, " 0 " + std::to_string(done)); return; }
+				write_all(s, data, done, chunk, h);
+			});
+	}
+
+	void read_all(long long s, std::shared_ptr<std::vector<std::uint8_t>> buf
+		, std::shared_ptr<std::array<unsigned long long, 3>> st, long long h)
+	{
+		socks.at(s)->async_read_some(asio::mutable_buffer(buf->data(), buf->size())
+			, [this, s, buf, st, h](boost::system::error_code const& ec, std::size_t n) {
+				if (ec)
+				{
+					run_handler(h, " " + std::to_string(ec_code(ec)) + " " + std::to_string((*st)[0]) + " "
+						+ std::to_string((*st)[2] * 65536 + (*st)[1]));
+					return;
+				}
+				for (std::size_t i = 0; i < n; ++i)
+				{
+					(*st)[1] = ((*st)[1] + (*buf)[i]) % 65521;
+					(*st)[2] = ((*st)[2] + (*st)[1]) % 65521;
+				}
+				(*st)[0] += n;
+				read_all(s, buf, st, h);
+			});
 	}
 
 	tcps::socket& sk(long long i)
